@@ -13,7 +13,7 @@ LEVEL = "exploration"
 DESIGN_REF = "DESIGN.md 5 C08"
 RULE = (
     "case = (circle frame: axis in general position x centre x radius); inside, every sector angle of the lattice "
-    "+-{0.05,0.3,1,pi/2,2,3,pi-1e-3,pi+1e-3,3.5,4.5,6,2pi-0.05} for angle-and-axis arcs, every angle in (0,pi) for origin "
+    "+-{0.05,0.3,1,pi/2,2,3,pi-1e-3,pi,pi+1e-3,3.5,4.5,6,2pi-0.05} for angle-and-axis arcs, every angle in (0,pi) for origin "
     "arcs, every (included angle, fraction of the middle point) for three-point arc lengths, evaluated on the real edge "
     "classes and compared with the analytic circle; every history of <= 3 steps {move the second vertex, translate, rotate "
     "the edge} on one origin/angle edge object (evaluated or not before the first step), re-compared after every step; "
@@ -22,7 +22,7 @@ RULE = (
 )
 ASSUMPTIONS = ["lattice, not continuum", "angle-and-axis arcs follow the right-hand rule from the first to the second vertex"]
 
-THETAS = [0.05, 0.3, 1.0, math.pi / 2, 2.0, 3.0, math.pi - 1e-3, math.pi + 1e-3, 3.5, 4.5, 6.0, 2 * math.pi - 0.05]
+THETAS = [0.05, 0.3, 1.0, math.pi / 2, 2.0, 3.0, math.pi - 1e-3, math.pi, math.pi + 1e-3, 3.5, 4.5, 6.0, 2 * math.pi - 0.05]
 CENTRES = [(0.0, 0.0, 0.0), (1.5, -2.0, 0.7), (120.0, 340.0, -95.0)]
 RADII = [0.01, 0.1, 1.0, 10.0]
 AXES = [(0, 0, 1), (1, 2, 3), (-2, 1, 0.5), (0.3, -1, 2), (1, 1, -1), (5, 0.1, 0.2)]
